@@ -1,10 +1,14 @@
 use crate::{rng::Rng, Emit};
+pub mod c09;
 pub mod c15;
 
 pub fn eval(op: &str, args: &[&str]) -> Option<String> {
+    // "m." ops are the same implementation operation, compared with the implementation-mirroring model
+    let op = op.strip_prefix("m.").unwrap_or(op);
     let prop = op.trim_start_matches("p.");
     let prop = prop.split('.').next().unwrap_or("");
     match prop {
+        "c09" => c09::eval(op, args),
         "c15" => c15::eval(op, args),
         _ => None,
     }
@@ -12,6 +16,7 @@ pub fn eval(op: &str, args: &[&str]) -> Option<String> {
 
 pub fn generate(prop: &str, thorough: bool, rng: &mut Rng, em: &mut Emit) {
     match prop {
+        "C09" => c09::generate(thorough, rng, em),
         "C15" => c15::generate(thorough, rng, em),
         _ => panic!("unknown property {}", prop),
     }
